@@ -30,6 +30,7 @@ pub struct FileState {
     path: String,
     persister: Arc<PersisterKind>,
     encryptor: Option<Arc<EncryptorKind>>,
+    apply_lock: tokio::sync::Mutex<()>,
 }
 
 impl FileState {
@@ -48,6 +49,7 @@ impl FileState {
             persister,
             encryptor,
             version: version.get_numeric_version().expect("Invalid version"),
+            apply_lock: tokio::sync::Mutex::new(()),
         }
     }
 
@@ -303,6 +305,11 @@ impl State for FileState {
 
     async fn apply(&self, user_id: u32, command: EntryCommand) -> Result<(), IggyError> {
         debug!("Applying state entry with command: {command}, user ID: {user_id}");
+        // Index allocation and the append form one critical section: commands journalled
+        // concurrently (e.g. under the shared system lock) must reach the file in index order.
+        let _apply_guard = self.apply_lock.lock().await;
+        let previous_index = self.current_index.load(Ordering::SeqCst);
+        let previous_entries_count = self.entries_count.load(Ordering::SeqCst);
         let timestamp = IggyTimestamp::now();
         let index = if self.entries_count.load(Ordering::SeqCst) == 0 {
             0
@@ -364,20 +371,26 @@ impl State for FileState {
         #[cfg(feature = "iggy_verif")]
         crate::verif::chaos_point("state.between_index_and_append").await;
         self.entries_count.fetch_add(1, Ordering::SeqCst);
+        let mut append_result: Result<(), IggyError> = Ok(());
         #[cfg(feature = "iggy_verif")]
         if crate::verif::inject_fault("state.append") {
-            return Err(IggyError::CannotAppendToFile);
+            append_result = Err(IggyError::CannotAppendToFile);
         }
-        self.persister
-            .append(&self.path, &bytes)
-            .await
-            .with_error_context(|error| {
-                format!(
-                    "{COMPONENT} (error: {error}) - failed to append state entry data to file, path: {}, data size: {}",
-                    self.path,
-                    bytes.len()
-                )
-            })?;
+        if append_result.is_ok() {
+            append_result = self.persister.append(&self.path, &bytes).await;
+        }
+        if let Err(error) = append_result {
+            // The entry is not in the file: give its index back, otherwise every later
+            // entry would leave a gap that makes the whole journal unloadable.
+            self.current_index.store(previous_index, Ordering::SeqCst);
+            self.entries_count.store(previous_entries_count, Ordering::SeqCst);
+            error!(
+                "{COMPONENT} (error: {error}) - failed to append state entry data to file, path: {}, data size: {}",
+                self.path,
+                bytes.len()
+            );
+            return Err(error);
+        }
         debug!("Applied state entry: {entry}");
         Ok(())
     }
